@@ -34,6 +34,8 @@ type plan struct {
 	target string // the model condition the corruption aims at ("" for honest)
 	fork   int
 	tag    string // optional scenario class, counted in the evidence
+	// straddle: an attestation of a slot whose committees span subnet 63 -> 0
+	straddle bool
 }
 
 type prng struct{ s uint64 }
@@ -545,6 +547,9 @@ func (bv *bview) produceAttestation(mc *MsgCase, clockMs int64) (*plan, string) 
 	honest := step{msg: h, subnet: p.subnet, clockMs: clockMs}
 	variant := honest
 	pl := &plan{fork: bv.forkAtSlot(mc.Slot)}
+	if first := (p.cps * (mc.Slot % sp.P.SLOTS_PER_EPOCH)) % refspec.ATTESTATION_SUBNET_COUNT; first+p.cps > refspec.ATTESTATION_SUBNET_COUNT && first+p.d.Index >= refspec.ATTESTATION_SUBNET_COUNT {
+		pl.straddle = true
+	}
 	finSlot := sp.StartSlotAtEpoch(bv.ref.Fin.Epoch)
 	cp := func() *refspec.Attestation { c := *h; c.Bits = append([]bool{}, h.Bits...); return &c }
 	switch mc.Corrupt {
